@@ -646,6 +646,44 @@ func exhaustiveC03(thorough bool, emit func(C03Case) bool) {
 			return
 		}
 	}
+	// many tags: 7..3224 distinct names (every two-character name [A-Za-z][A-Za-z0-9] at the top of
+	// the ladder), of all five types in turn, in an order that is not the sorted one; H values of
+	// 0..300 bytes
+	{
+		var names []string
+		for _, a := range "ZzAaMmXxYyBbCcDdEeFfGgHhIiJjKkLlNnOoPpQqRrSsTtUuVvWw" {
+			for _, b := range "9zA0aZ5mM1x8X2b7B3c6C4dDeEfFgGhHiIjJkKlLnNoOpPqQrRsStTuUvVwWyY" {
+				names = append(names, string([]rune{a, b}))
+			}
+		}
+		for _, k := range []int{7, 8, 9, 15, 16, 17, 31, 32, 33, 63, 64, 65, 100, 127, 128, 129, 255, 256, 257, 1000, len(names)} {
+			r := baseSamRec
+			r.Tags = nil
+			for i := 0; i < k; i++ {
+				nm := names[(i*37)%len(names)]
+				if k == len(names) {
+					nm = names[i]
+				}
+				switch i % 5 {
+				case 0:
+					r.Tags = append(r.Tags, SamTag{Name: nm, Type: "i", I: i*1000003 - 7})
+				case 1:
+					r.Tags = append(r.Tags, SamTag{Name: nm, Type: "Z", Z: gen.B(fmt.Sprintf("v%d:\"x", i))})
+				case 2:
+					r.Tags = append(r.Tags, SamTag{Name: nm, Type: "A", A: '!' + i%94})
+				case 3:
+					r.Tags = append(r.Tags, SamTag{Name: nm, Type: "f", F: gen.F(float64(i) / 7)})
+				case 4:
+					r.Tags = append(r.Tags, SamTag{Name: nm, Type: "H", H: gen.B(bytes.Repeat([]byte{byte(i), 0xff, 0x00}, i%101))})
+				}
+			}
+			second := baseSamRec
+			second.Qname = gen.B("after-the-many-tags")
+			if !emit(C03Case{Kind: "file", Recs: []SamRec{r, second}}) {
+				return
+			}
+		}
+	}
 	// every printable A value, boundary ints and floats
 	for a := '!'; a <= '~'; a++ {
 		r := baseSamRec
